@@ -47,7 +47,13 @@ func runC16(c *Ctx) error {
 	c.Rule = "parsers: histories of 2-6 consecutive Parse calls on one Parser object (inputs drawn from valid, failing, recovering and action-error cases, fed by token name or through the generated lexer) - every call's complete observation (event log, result, error token/type/literal/position, expected list, custom error) must equal that of a fresh parser on the same input; lexers: scan k tokens of a multi-line source, Reset, scan everything - tokens and positions must equal a fresh lexer's; non-trivial = history whose earlier calls include at least one failing or recovering parse / reset after at least one token; distinct by (grammar, history)"
 	c.Assumptions = []string{"a fresh object's behaviour is the oracle (C02-C08 judge that behaviour itself)"}
 	rng := c.Rng
-	clean := genSynJobs(rng, nG/2, "g", synFilter{class: func(k model.LRClass) bool { return k == model.ClassClean }, nonEmpty: true, actionMode: 0, flags: flagsZipAlternate, simpleLex: true})
+	clean := genSynJobs(rng, nG/2, "g", synFilter{class: func(k model.LRClass) bool { return k == model.ClassClean }, nonEmpty: true, actionMode: 0, flags: flagsZipAlternate, simpleLex: true,
+		noStrLits: func(i int) bool { return i%3 == 0 }, family: func(i int) string {
+			if i%5 == 0 {
+				return "wide"
+			}
+			return ""
+		}})
 	errs := genSynJobs(rng, nG-len(clean), "h", synFilter{class: func(k model.LRClass) bool { return k != model.ClassAcceptReduce }, withErrors: true, nonEmpty: true, actionMode: 1, flags: func(i int) []string { return []string{"-a"} }, simpleLex: true})
 	jobs := append(clean, errs...)
 	inRng := rand.New(rand.NewSource(c.Seed*53 + 13))
